@@ -18,6 +18,7 @@ EXHAUSTIVE = "date conversions for every day 1900-2100"
 ASSUMPTIONS = ["initialisation times are whole seconds; UTC calendar; Monday-based weeks",
                "dayofyear numbering: either leap-year calendar (verif) or true ordinal is accepted, consistently"]
 REQUIRED_COUNTERS = ["days_converted", "bucket_checks", "partition_checks", "label_checks", "csv_rows", "weighted_mean_checks"]
+ROTATE_TZ = True       # the calendar is UTC whatever the time zone of the machine
 ANCHOR_FUNCS = ["Data._apply_axis", "Week.compute_from_times", "util.date_to_unixtime"]
 
 
